@@ -24,7 +24,7 @@ PLAN = {
     "thorough": {"shards": 16, "shard_timeout": 3600, "case_timeout": 60, "runs": 1200000, "max_case_timeouts": 10},
 }
 THRESHOLDS = {
-    "quick": {"runs_checked": 600, "budget_checks": 5000, "alg:gp": 100, "alg:rs": 100, "alg:hc": 100, "alg:opo": 100, "kind:evaluation": 200, "kind:target": 100, "kind:anyof": 150, "target_reached_runs": 60, "zero_creation_runs": 10, "selection_after_variation_runs": 40, "frontend_runs": 40, "frontend_repr:ge": 3, "frontend_repr:dsge": 3, "frontend_repr:stack": 3, "gp_runs_with_membership_model": 100, "frontend_runs_with_target_zero": 10, "frontend_target_reached_runs": 15},
+    "quick": {"runs_checked": 600, "budget_checks": 5000, "alg:gp": 100, "alg:rs": 100, "alg:hc": 100, "alg:opo": 100, "kind:evaluation": 200, "kind:target": 100, "kind:anyof": 150, "target_reached_runs": 60, "zero_creation_runs": 10, "selection_after_variation_runs": 40, "frontend_runs": 40, "frontend_multi_objective_runs": 8, "multi_target_runs": 40, "multi_target:rs": 8, "multi_target:hc": 8, "multi_target:opo": 8, "multi_target_reached_runs": 8, "frontend_repr:ge": 3, "frontend_repr:dsge": 3, "frontend_repr:stack": 3, "gp_runs_with_membership_model": 100, "frontend_runs_with_target_zero": 10, "frontend_target_reached_runs": 15},
     "thorough": {"runs_checked": 15000, "budget_checks": 120000, "zero_creation_runs": 300},
 }
 
@@ -51,6 +51,92 @@ def gen_cases(tier, seed):
             "seed": rng.randrange(10**6),
         }
     yield from gen_frontend(rng, max(60, PLAN[tier]["runs"] // 20))
+    yield from gen_multi_target(rng, max(60, PLAN[tier]["runs"] // 25))
+
+
+def gen_multi_target(rng, n):
+    """Target budgets for multi-objective problems, with every algorithm (the single-solution searches check their
+    budget before the first evaluation, when nothing is best yet)."""
+    for i in range(n):
+        yield {"multi_target": rng.choice(["TargetMultiFitness", "TargetMultiSameFitness"]), "alg": ["rs", "hc", "opo", "gp"][i % 4], "n": rng.choice([5, 9, 14, 25]), "size": rng.choice([2, 3, 5]), "target_at": rng.randint(1, 20), "landscape": rng.choice(["plateau", "never"]), "order": rng.choice(["target-first", "evaluation-first"]), "minimize": rng.random() < 0.5, "repr": rng.choice(["tree", "ge"]), "seed": rng.randrange(10**6)}
+
+
+def run_multi_target(case, rec):
+    from geneticengine.algorithms.gp.gp import GeneticProgramming
+    from geneticengine.algorithms.hill_climbing import HC
+    from geneticengine.algorithms.one_plus_one import OnePlusOne
+    from geneticengine.algorithms.random_search import RandomSearch
+    from geneticengine.evaluation import budget as B
+    from geneticengine.evaluation.sequential import SequentialEvaluator
+    from geneticengine.evaluation.tracker import MultiObjectiveProgressTracker
+    from geneticengine.problems import MultiObjectiveProblem
+
+    g, _ = evo.tiny()
+    src = workload.native(case["seed"])
+    rep = evo.make_rep(case["repr"], g, src)
+    minimize, n = case["minimize"], case["n"]
+    T = -500.0 if minimize else 500.0  # best in the declared direction on both objectives
+    calls = [0]
+
+    def f(p):
+        calls[0] += 1
+        k = calls[0]
+        if case["landscape"] == "plateau" and k >= case["target_at"]:
+            return [T, T]
+        return [float(k % 5), float(k % 3)]
+
+    prob = MultiObjectiveProblem([minimize, minimize], f)
+    tracker = MultiObjectiveProgressTracker(prob, SequentialEvaluator())
+    log: list = []
+
+    class Watching(B.SearchBudget):
+        def __init__(self, inner):
+            self.inner = inner
+
+        def is_done(self, tr):
+            verdict = self.inner.is_done(tr)
+            best = tr.get_best_individuals()
+            log.append({"evals": tr.get_number_evaluations(), "verdict": bool(verdict), "best": None if not best else list(best[0].get_fitness(tr.get_problem()).fitness_components)})
+            if len(log) > n + 300:
+                raise Stalled()
+            return verdict
+
+    target = B.TargetMultiFitness([T, T]) if case["multi_target"] == "TargetMultiFitness" else B.TargetMultiSameFitness(T)
+    inner = B.AnyOf(target, B.EvaluationBudget(n)) if case["order"] == "target-first" else B.AnyOf(B.EvaluationBudget(n), target)
+    budget = Watching(inner)
+    alg = {
+        "gp": lambda: GeneticProgramming(prob, budget, rep, src, tracker=tracker, population_size=case["size"]),
+        "rs": lambda: RandomSearch(prob, budget, rep, src, tracker=tracker),
+        "hc": lambda: HC(prob, budget, rep, src, tracker=tracker, number_of_mutations=case["size"]),
+        "opo": lambda: OnePlusOne(prob, budget, rep, src, tracker=tracker),
+    }[case["alg"]]()
+    wit = {k: case[k] for k in ("multi_target", "alg", "n", "size", "target_at", "landscape", "order", "minimize", "repr")}
+    rec.count("multi_target_runs")
+    rec.count(f"multi_target:{case['alg']}")
+    rec.count("evaluations")
+    try:
+        alg.search()
+    except Stalled:
+        rec.violation("non-termination:creating-step:multi-target", dict(wit, checks=len(log)))
+        return
+    except core.CaseTimeout:
+        raise
+    except BaseException as e:  # noqa
+        rec.violation(f"search:raises:{type(e).__name__}@{core.exc_site(e)}:multi-target", dict(wit, error=core.short(e), checks_before=len(log), evaluations=calls[0]))
+        return
+    if not log:
+        rec.violation("budget-never-checked", wit)
+        return
+    reached = [e["best"] is not None and all(abs(c - T) < 0.001 for c in e["best"]) for e in log]
+    first = next((i for i, (ok, e) in enumerate(zip(reached, log)) if ok or e["evals"] >= n), None)
+    if not log[-1]["verdict"] or any(e["verdict"] for e in log[:-1]):
+        rec.violation("search-continued-after-a-true-check-or-stopped-on-a-false-one", dict(wit, history=[(e["evals"], e["verdict"]) for e in log[-5:]]))
+    elif first != len(log) - 1:
+        rec.violation(f"anyof:{'stopped-before-either-member' if first is None else 'continued-after-a-member-was-done'}:multi-target", dict(wit, history=[(e["evals"], e["best"], e["verdict"]) for e in log[-5:]], expected_last=first))
+    else:
+        if reached[-1]:
+            rec.count("multi_target_reached_runs")
+        rec.distinct_add(["multi-target", wit, [(e["evals"], e["verdict"]) for e in log]])
 
 
 def gen_frontend(rng, n):
@@ -60,6 +146,7 @@ def gen_frontend(rng, n):
             "front": "simplegp",
             "target": rng.choice([None, 0, 0.0, -0.0, 0, 5, -3.5, 1e-9, 100.0]),
             "minimize": rng.random() < 0.5,
+            "objectives": rng.choice([1, 1, 1, 2]),
             "max_evaluations": rng.choice([30, 45, 60, 90]),
             "pop": rng.choice([3, 4, 6, 10]),
             "target_at": rng.randint(1, 40),
@@ -83,11 +170,16 @@ def run_frontend(case, rec):
         k = calls[0]
         worse = (1 + k % 5) if minimize else -(1 + k % 5)  # never within tolerance of the target, always worse than it
         if case["landscape"] == "plateau" and k >= case["target_at"]:
-            return t
-        if case["landscape"] == "counter" and k == case["target_at"]:
-            return t
-        return t + worse
+            v = t
+        elif case["landscape"] == "counter" and k == case["target_at"]:
+            v = t
+        else:
+            v = t + worse
+        return [v, v] if nobj == 2 else v
 
+    nobj = case.get("objectives", 1)
+    if nobj == 2:
+        rec.count("frontend_multi_objective_runs")
     log: list = []
 
     class Watching(SearchBudget):  # delegating wrapper around the budget the front-end built
@@ -104,7 +196,7 @@ def run_frontend(case, rec):
 
     wit = {"front": "SimpleGP", "target_fitness": repr(target), "minimize": minimize, "max_evaluations": cap, "population": case["pop"], "landscape": case["landscape"], "target_at": case["target_at"], "repr": case["repr"]}
     try:
-        gp = SimpleGP(f, g, minimize=minimize, target_fitness=target, representation=case["repr"], max_depth=4, max_evaluations=cap, max_time=600, seed=case["seed"], population_size=case["pop"], elitism=1, novelty=1)
+        gp = SimpleGP(f, g, minimize=[minimize, minimize] if nobj == 2 else minimize, target_fitness=target, representation=case["repr"], max_depth=4, max_evaluations=cap, max_time=600, seed=case["seed"], population_size=case["pop"], elitism=1, novelty=1)
         gp.gp.budget = Watching(gp.gp.budget)
         gp.search()
     except Stalled:
@@ -143,6 +235,8 @@ def run_frontend(case, rec):
 def run_case(case, rec):
     if case.get("front") == "simplegp":
         return run_frontend(case, rec)
+    if case.get("multi_target"):
+        return run_multi_target(case, rec)
     from geneticengine.algorithms.gp.gp import GeneticProgramming
     from geneticengine.algorithms.gp.operators.combinators import ParallelStep, SequenceStep
     from geneticengine.algorithms.gp.operators.crossover import GenericCrossoverStep
